@@ -400,6 +400,11 @@ def check_cdp_delta(ctx, fi):
     dexpr = final
     if ok:
         dexpr = [x for x in final.args if U(x) not in ('1', '1.0')][0]
+    # a floor at 0 under the clamp does nothing: the bound exp(..)/(alpha - 1) is positive for alpha > 1.  A POSITIVE floor is kept (and
+    # then does not match the published formula: the reported delta is no longer the optimum of the bound)
+    if isinstance(dexpr, ast.Call) and U(dexpr.func) in ('max', 'builtins.max') and len(dexpr.args) == 2 and not dexpr.keywords and \
+            any(isinstance(x, ast.Constant) and x.value == 0 and not isinstance(x.value, bool) for x in dexpr.args):
+        dexpr = [x for x in dexpr.args if not (isinstance(x, ast.Constant) and x.value == 0)][0]
     delta_src = ev.ev(dexpr).rat()
     oracle = SymEval({'a': sym(alpha) + const(shift), 'rho': sym(rho), 'eps': sym(eps)}, atoms, strict=True).ev(
         parse('exp((a-1)*(a*rho-eps) + a*log(1-1/a)) / (a-1)')).rat()
